@@ -17,7 +17,7 @@ for d in sorted(glob.glob(os.path.join(ROOT, 'seeded', 'S*')), key=lambda d: int
     if r is None:
         out = meta['detected_by']
     elif r[0] == 'DETECTED':
-        sigs = [x.split(':', 1) for x in r[1].split()]
+        sigs = re.findall(r'(C\d\d):(.*?)(?= C\d\d:C\d\d|$)', r[1])
         out = 'detected: ' + '; '.join(f"{c} `{s}`" for c, s in sigs)
     elif r[0] == 'MISSED':
         out = '**not detected** ' + r[1] + ' — ' + meta['detected_by']
